@@ -19,7 +19,10 @@ RULE = ("(1) EVERY checkpointed height (all 327 of the pinned table): a candidat
         "in genesis bytes and the five recorded real blocks: id == file name == sha256d(header), genesis id == checkpoint 0, "
         "byte-identical re-encoding, and with the REAL scrypt and the horizon lowered every one passes add_block; evidence == "
         "independent reference evidence with scrypt N=2^15,r=8,p=1. (4) known-answer values of scrypt / blake2b-256 / sha256d "
-        "from those blocks. non-trivial = wrong-id candidate at a checkpoint height, deep-state candidate, recorded block; "
+        "from those blocks. (5) a node whose head is above the horizon refuses a properly mined fork block at a checkpointed height; "
+        "the deployed height/length encoding is pinned for every checkpointed height and 7-bit boundary; an alternative history of "
+        "10,000 blocks served in bulk download leaves no wrong-id block at a checkpointed height once block 10,000 was handled. "
+        "non-trivial = wrong-id candidate at a checkpoint height, deep-state candidate, recorded block; "
         "distinct = (height, id).")
 ASSUMPTIONS = ["pinned copies of the checkpoint table and of the recorded blocks in vf/data/ (taken from the pinned commit)",
                "deep bases are fabricated (filler ancestors)", "the scrypt python package with the documented parameters is the arbiter for (3)/(4)"]
@@ -38,7 +41,8 @@ def real_scrypt(password, salt):
 
 
 def shards(tier):
-    return [{"kind": "table", "i": i, "n": 6} for i in range(6)] + [{"kind": "deep"}, {"kind": "recorded"}]
+    return ([{"kind": "table", "i": i, "n": 6} for i in range(6)] + [{"kind": "deep"}, {"kind": "recorded"}, {"kind": "above_horizon"},
+            {"kind": "format"}, {"kind": "ibd"}])
 
 
 def candidate(D, S, height, cid, prev=b"\x11" * 32):
@@ -211,6 +215,124 @@ def run_deep(res, tier, seed):
     res.sample({"deep_base_heights": [162_998, 163_000], "candidates": sorted(muts), "scrypt": "real", "patched": "nothing"})
 
 
+def run_above_horizon(res, tier, seed):
+    """a node whose head is already ABOVE the horizon is offered a properly mined fork block AT a checkpointed height (its
+    parent, at height h-1, is known): the id is not the checkpoint, so it must be refused (real table and horizon; the fast
+    scrypt stand-in is used for mining the candidate only)"""
+    import immutables
+    env.use_fast_pow(horizon=163_000)
+    from vf import build as b, deepbase
+    from skepticoin.coinstate import CoinState
+    from skepticoin.datatypes import Block
+    cp, _ = pinned()
+    cfg = R.Config()
+    sat = (R.TWO256 - 1).to_bytes(32, "big")
+    heights = [500, 10_000, 86_500, 162_500, 163_000] if tier == "quick" else sorted(int(k) for k in cp["known_hashes"] if int(k) > 0)[::3] + [163_000]
+    for h in heights:
+        led_hi, tip_hi, cs_hi = deepbase.make(163_000 + 777, 1_700_000_000, sat, {}, cfg)
+        led_lo, tip_lo, cs_lo = deepbase.make(h - 1, 1_699_000_000, sat, {}, cfg)
+        hi, lo = cs_hi.current_chain_hash, cs_lo.current_chain_hash
+        cs = CoinState(
+            block_by_hash=immutables.Map({hi: cs_hi.block_by_hash[hi], lo: cs_lo.block_by_hash[lo]}),
+            unspent_transaction_outs_by_hash=immutables.Map({hi: immutables.Map(), lo: immutables.Map()}),
+            block_by_height_by_hash=immutables.Map({hi: cs_hi.block_by_height_by_hash[hi], lo: cs_lo.block_by_height_by_hash[lo]}),
+            heads=immutables.Map({hi: cs_hi.block_by_hash[hi], lo: cs_lo.block_by_hash[lo]}),
+            current_chain_hash=hi)
+        w = b.World(cfg, uni=led_lo)
+        blk = w.build_block({"label": "fork%d" % h, "parent": "g", "miner": 1, "dt": 50, "txs": []}, max_tries=50)
+        res.evaluations += 1
+        res.nontrivial("above-horizon:%d" % h)
+        if blk.id().hex() == cp["known_hashes"][str(h)]:
+            continue
+        try:
+            cs.add_block(Block.deserialize(blk.raw()), blk.ts + 100)
+            ok = True
+        except Exception:
+            ok = False
+        if ok:
+            res.fail("checkpoint", "fork-at-checkpoint-accepted-above-horizon", "a node whose head is above the horizon accepted a fork block at checkpointed height %d whose id is not the checkpoint" % h,
+                     {"above_horizon": h})
+    env.use_real_pow()
+    res.sample({"head_above_horizon": 163_777, "fork_blocks_at_checkpoint_heights": heights})
+
+
+def run_format(res, tier, seed):
+    """the network's height / length encoding is pinned: for every checkpointed height (and the neighbours of every 7-bit
+    boundary) the code writes exactly the deployed form and reads it back -- a self-consistent change of the encoder AND the
+    decoder would silently change the ids of real blocks at those heights"""
+    import io
+    env.import_repo()
+    from skepticoin import serialization as SER, datatypes as D
+    cp, _ = pinned()
+    hs = sorted({int(k) for k in cp["known_hashes"]} | {max(0, (1 << (7 * j)) + d) for j in range(0, 5) for d in (-1, 0, 1)} | {63, 64, 100, 127, 128, 8191, 8192, 16383, 16384})
+    for h in hs:
+        res.evaluations += 1
+        res.nontrivial("fmt:%d" % h)
+        f = io.BytesIO()
+        SER.stream_serialize_vlq(f, h)
+        got = f.getvalue()
+        if got != R.vlq(h):
+            res.fail("format", "height-encoding-changed", "height/length %d is written as %s, the deployed network writes %s" % (h, got.hex(), R.vlq(h).hex()), {"format": h})
+            continue
+        try:
+            back = SER.stream_deserialize_vlq(io.BytesIO(R.vlq(h)))
+        except Exception as e:
+            back = repr(e)
+        if back != h:
+            res.fail("format", "deployed-height-encoding-refused", "the deployed encoding %s of %d is read back as %r" % (R.vlq(h).hex(), h, back), {"format": h})
+        summ = D.BlockSummary(h, b"\x01" * 32, b"\x02" * 32, 5, b"\x03" * 32, 7)
+        want = R.RBlock(h, b"\x01" * 32, b"\x02" * 32, 5, b"\x03" * 32, 7, (R.NULL32,) * 3, []).summary_raw()
+        if summ.serialize() != want:
+            res.fail("format", "summary-encoding-changed", "a block summary at height %d is not encoded as the deployed network encodes it" % h, {"format": h})
+    res.sample({"pinned_encodings": len(hs)})
+
+
+def run_ibd(res, tier, seed):
+    """bulk download: a peer serves an ALTERNATIVE history (cheap blocks with a self-declared maximal target, which pass the
+    stand-alone checks) as answers to requests, up to height 10,000.  The node compares checkpoints on that path only at
+    every 10,000th block; once that block has been handled no block with a wrong id may remain at a checkpointed height."""
+    import struct
+    from vf import simnet, build as b
+    from skepticoin.coinstate import CoinState
+    from skepticoin.networking import messages as M
+    from skepticoin import consensus as C
+    cp, _ = pinned()
+    env.use_real_pow()
+    simnet.install()
+    simnet.CLOCK.now = 1_800_000_000
+    net = simnet.Net()
+    node = net.add("n", "10.0.0.1", CoinState.zero(), 5)
+    node.cm.started_at = -10 ** 9
+    w = simnet.Wire(net, node)
+    w.greet()
+    g = R.dec_block(b.GENESIS)[0]
+    prev, ts = g.id(), g.ts
+    sat = (R.TWO256 - 1).to_bytes(32, "big")
+    top = 10_000
+    for h in range(1, top + 1):
+        cb = R.RTx([(R.NULL32, 0, ("cb", h, b"alt"))], [(10 ** 9, bytes(64))])
+        ts += 1
+        blk = R.RBlock(h, prev, cb.id(), ts, sat, h, (R.NULL32,) * 3, [cb])
+        prev = blk.id()
+        w.msg_id += 1
+        hdr = M.MessageHeader(1, w.msg_id, 99, 1).serialize()                  # in_response_to != 0: an answer, as in bulk download
+        data = hdr + M.MSG_DATA + b"\x00" + M.DATA_BLOCK + blk.raw()
+        w.node_sock.inflight += b"MAJI" + struct.pack(">I", len(data)) + data
+        if h % 50 == 0 or h == top:
+            net.drain(None, only=[node])
+    res.evaluations += top
+    cs = node.cm.coinstate
+    wrong = [h for h in range(500, top + 1, 500) if h in cs.by_height_at_head() and cs.by_height_at_head()[h].hash().hex() != cp["known_hashes"][str(h)]]
+    res.nontrivial("ibd:alt-history-to-%d" % top)
+    res.nontrivial("ibd:head-after=%d" % cs.head().height)
+    if net.escaped:
+        res.fail("ibd", "ibd-exception-escaped", net.escaped[0][1], {"ibd": top})
+    if wrong:
+        res.fail("checkpoint", "alternative-history-passed-checkpoints-in-bulk-download", "after an alternative history of %d blocks was served in bulk download the active chain holds wrong-id blocks at checkpointed heights %s..%s" % (
+            top, wrong[0], wrong[-1]), {"ibd": top})
+    res.sample({"bulk_download_alternative_history": top, "head_height_afterwards": cs.head().height})
+
+
 def run_recorded(res, tier, seed):
     env.import_repo()
     from skepticoin import consensus as C, hash as H
@@ -317,6 +439,12 @@ def run(shard, tier, seed):
             run_table(res, tier, seed, shard)
         elif shard["kind"] == "deep":
             run_deep(res, tier, seed)
+        elif shard["kind"] == "above_horizon":
+            run_above_horizon(res, tier, seed)
+        elif shard["kind"] == "format":
+            run_format(res, tier, seed)
+        elif shard["kind"] == "ibd":
+            run_ibd(res, tier, seed)
         else:
             run_recorded(res, tier, seed)
     except env.HarnessError as e:
@@ -329,7 +457,13 @@ def run(shard, tier, seed):
 
 def replay(case):
     res = Result()
-    if "recorded" in case:
+    if "above_horizon" in case:
+        run_above_horizon(res, "quick", 1)
+    elif "format" in case:
+        run_format(res, "quick", 1)
+    elif "ibd" in case:
+        run_ibd(res, "quick", 1)
+    elif "recorded" in case:
         run_recorded(res, "quick", 1)
     elif "deep" in case:
         run_deep(res, "quick", 1)
